@@ -105,65 +105,65 @@ func init() {
 		"bytes.IndexByte":                      extIndexByte,
 
 		// ---- internal/abi, runtime, misc ----
-		"internal/abi.NoEscape":            func(fr *frame, a []value) value { return a[0] },
-		"internal/abi.Escape":              func(fr *frame, a []value) value { return a[0] },
-		"internal/abi.FuncPCABI0":          func(fr *frame, a []value) value { return uintptr(0) },
-		"internal/abi.FuncPCABIInternal":   func(fr *frame, a []value) value { return uintptr(0) },
-		"internal/race.Enable":             retNil,
-		"internal/race.Disable":            retNil,
-		"internal/race.Acquire":            retNil,
-		"internal/race.Release":            retNil,
-		"internal/race.ReleaseMerge":       retNil,
-		"internal/race.Read":               retNil,
-		"internal/race.Write":              retNil,
-		"internal/race.ReadRange":          retNil,
-		"internal/race.WriteRange":         retNil,
-		"internal/race.Errors":             func(fr *frame, a []value) value { return 0 },
-		"internal/godebug.(*Setting).Value":          func(fr *frame, a []value) value { return "" },
-		"internal/godebug.(*Setting).IncNonDefault":  retNil,
-		"internal/godebug.(*Setting).Name":           func(fr *frame, a []value) value { return "" },
-		"internal/godebug.New":                       func(fr *frame, a []value) value { return (*value)(nil) },
-		"runtime.GC":                       retNil,
-		"runtime.Gosched":                  func(fr *frame, a []value) value { fr.i.sched.yieldAll(); return nil },
-		"runtime.GOMAXPROCS":               func(fr *frame, a []value) value { return 1 },
-		"runtime.NumCPU":                   func(fr *frame, a []value) value { return 1 },
-		"runtime.KeepAlive":                retNil,
-		"runtime.SetFinalizer":             retNil,
-		"runtime.Caller":                   func(fr *frame, a []value) value { return tuple{uintptr(0), "", 0, false} },
-		"runtime.Callers":                  func(fr *frame, a []value) value { return 0 },
-		"runtime.Stack":                    func(fr *frame, a []value) value { return 0 },
-		"runtime/debug.Stack":              func(fr *frame, a []value) value { return []value(nil) },
-		"runtime.GOROOT":                   func(fr *frame, a []value) value { return "/go" },
-		"os.Getenv":                        func(fr *frame, a []value) value { return "" },
-		"os.LookupEnv":                     func(fr *frame, a []value) value { return tuple{"", false} },
-		"os.Exit":                          func(fr *frame, a []value) value { panic(abortPath{"unsupported", "os.Exit called"}) },
-		"os.Hostname":                      func(fr *frame, a []value) value { return tuple{"localhost", iface{}} },
-		"(*log.Logger).Output":             func(fr *frame, a []value) value { return iface{} },
-		"(*log.Logger).output":             func(fr *frame, a []value) value { return iface{} },
-		"log.Printf":                       retNil,
-		"log.Println":                      retNil,
-		"log.Print":                        retNil,
-		"math.Float64bits":                 extFloat64bits,
-		"math.Float64frombits":             extFloat64frombits,
-		"math.Float32bits":                 extFloat32bits,
-		"math.Float32frombits":             extFloat32frombits,
-		"math.Abs":                         func(fr *frame, a []value) value { return math.Abs(a[0].(float64)) },
-		"math.Inf":                         func(fr *frame, a []value) value { return math.Inf(a[0].(int)) },
-		"math.NaN":                         func(fr *frame, a []value) value { return math.NaN() },
-		"math.IsNaN":                       extIsNaN,
-		"math.IsInf":                       func(fr *frame, a []value) value { return math.IsInf(a[0].(float64), a[1].(int)) },
-		"math.Floor":                       func(fr *frame, a []value) value { return math.Floor(a[0].(float64)) },
-		"math.Ceil":                        func(fr *frame, a []value) value { return math.Ceil(a[0].(float64)) },
-		"math.Trunc":                       func(fr *frame, a []value) value { return math.Trunc(a[0].(float64)) },
-		"math.Sqrt":                        func(fr *frame, a []value) value { return math.Sqrt(a[0].(float64)) },
-		"math.Log":                         func(fr *frame, a []value) value { return math.Log(a[0].(float64)) },
-		"math.Exp":                         func(fr *frame, a []value) value { return math.Exp(a[0].(float64)) },
-		"math.Ldexp":                       func(fr *frame, a []value) value { return math.Ldexp(a[0].(float64), a[1].(int)) },
-		"math.Mod":                         func(fr *frame, a []value) value { return math.Mod(a[0].(float64), a[1].(float64)) },
-		"math.Pow":                         func(fr *frame, a []value) value { return math.Pow(a[0].(float64), a[1].(float64)) },
-		"math.Copysign":                    func(fr *frame, a []value) value { return math.Copysign(a[0].(float64), a[1].(float64)) },
-		"math.Min":                         func(fr *frame, a []value) value { return math.Min(a[0].(float64), a[1].(float64)) },
-		"math.Max":                         func(fr *frame, a []value) value { return math.Max(a[0].(float64), a[1].(float64)) },
+		"internal/abi.NoEscape":                     func(fr *frame, a []value) value { return a[0] },
+		"internal/abi.Escape":                       func(fr *frame, a []value) value { return a[0] },
+		"internal/abi.FuncPCABI0":                   func(fr *frame, a []value) value { return uintptr(0) },
+		"internal/abi.FuncPCABIInternal":            func(fr *frame, a []value) value { return uintptr(0) },
+		"internal/race.Enable":                      retNil,
+		"internal/race.Disable":                     retNil,
+		"internal/race.Acquire":                     retNil,
+		"internal/race.Release":                     retNil,
+		"internal/race.ReleaseMerge":                retNil,
+		"internal/race.Read":                        retNil,
+		"internal/race.Write":                       retNil,
+		"internal/race.ReadRange":                   retNil,
+		"internal/race.WriteRange":                  retNil,
+		"internal/race.Errors":                      func(fr *frame, a []value) value { return 0 },
+		"internal/godebug.(*Setting).Value":         func(fr *frame, a []value) value { return "" },
+		"internal/godebug.(*Setting).IncNonDefault": retNil,
+		"internal/godebug.(*Setting).Name":          func(fr *frame, a []value) value { return "" },
+		"internal/godebug.New":                      func(fr *frame, a []value) value { return (*value)(nil) },
+		"runtime.GC":                                retNil,
+		"runtime.Gosched":                           func(fr *frame, a []value) value { fr.i.sched.yieldAll(); return nil },
+		"runtime.GOMAXPROCS":                        func(fr *frame, a []value) value { return 1 },
+		"runtime.NumCPU":                            func(fr *frame, a []value) value { return 1 },
+		"runtime.KeepAlive":                         retNil,
+		"runtime.SetFinalizer":                      retNil,
+		"runtime.Caller":                            func(fr *frame, a []value) value { return tuple{uintptr(0), "", 0, false} },
+		"runtime.Callers":                           func(fr *frame, a []value) value { return 0 },
+		"runtime.Stack":                             func(fr *frame, a []value) value { return 0 },
+		"runtime/debug.Stack":                       func(fr *frame, a []value) value { return []value(nil) },
+		"runtime.GOROOT":                            func(fr *frame, a []value) value { return "/go" },
+		"os.Getenv":                                 func(fr *frame, a []value) value { return "" },
+		"os.LookupEnv":                              func(fr *frame, a []value) value { return tuple{"", false} },
+		"os.Exit":                                   func(fr *frame, a []value) value { panic(abortPath{"unsupported", "os.Exit called"}) },
+		"os.Hostname":                               func(fr *frame, a []value) value { return tuple{"localhost", iface{}} },
+		"(*log.Logger).Output":                      func(fr *frame, a []value) value { return iface{} },
+		"(*log.Logger).output":                      func(fr *frame, a []value) value { return iface{} },
+		"log.Printf":                                retNil,
+		"log.Println":                               retNil,
+		"log.Print":                                 retNil,
+		"math.Float64bits":                          extFloat64bits,
+		"math.Float64frombits":                      extFloat64frombits,
+		"math.Float32bits":                          extFloat32bits,
+		"math.Float32frombits":                      extFloat32frombits,
+		"math.Abs":                                  func(fr *frame, a []value) value { return math.Abs(a[0].(float64)) },
+		"math.Inf":                                  func(fr *frame, a []value) value { return math.Inf(a[0].(int)) },
+		"math.NaN":                                  func(fr *frame, a []value) value { return math.NaN() },
+		"math.IsNaN":                                extIsNaN,
+		"math.IsInf":                                func(fr *frame, a []value) value { return math.IsInf(a[0].(float64), a[1].(int)) },
+		"math.Floor":                                func(fr *frame, a []value) value { return math.Floor(a[0].(float64)) },
+		"math.Ceil":                                 func(fr *frame, a []value) value { return math.Ceil(a[0].(float64)) },
+		"math.Trunc":                                func(fr *frame, a []value) value { return math.Trunc(a[0].(float64)) },
+		"math.Sqrt":                                 func(fr *frame, a []value) value { return math.Sqrt(a[0].(float64)) },
+		"math.Log":                                  func(fr *frame, a []value) value { return math.Log(a[0].(float64)) },
+		"math.Exp":                                  func(fr *frame, a []value) value { return math.Exp(a[0].(float64)) },
+		"math.Ldexp":                                func(fr *frame, a []value) value { return math.Ldexp(a[0].(float64), a[1].(int)) },
+		"math.Mod":                                  func(fr *frame, a []value) value { return math.Mod(a[0].(float64), a[1].(float64)) },
+		"math.Pow":                                  func(fr *frame, a []value) value { return math.Pow(a[0].(float64), a[1].(float64)) },
+		"math.Copysign":                             func(fr *frame, a []value) value { return math.Copysign(a[0].(float64), a[1].(float64)) },
+		"math.Min":                                  func(fr *frame, a []value) value { return math.Min(a[0].(float64), a[1].(float64)) },
+		"math.Max":                                  func(fr *frame, a []value) value { return math.Max(a[0].(float64), a[1].(float64)) },
 	})
 }
 
@@ -404,6 +404,25 @@ func init() {
 			}
 			return res
 		},
+		"Cached": func(fr *frame, a []value) value {
+			// Cached(key, f): run the (concrete, draw-free) setup f once per
+			// worker and reuse its result on later paths; writes to the cached
+			// object graph during a path abort that path (exit 2), so reuse is
+			// only ever observable as identical to re-execution.
+			key := goString(a[0])
+			i := fr.i
+			v, ok := i.setupCache[key]
+			if !ok {
+				nd, ndec := len(i.p.draws), len(i.p.decisions)
+				v = call(i, fr, token.NoPos, a[1], nil)
+				if len(i.p.draws) != nd || len(i.p.decisions) != ndec {
+					panic(abortPath{"unsupported", "Cached setup " + key + " made draws or decisions"})
+				}
+				i.setupCache[key] = v
+			}
+			i.protectCached(v)
+			return v
+		},
 		"Param": func(fr *frame, a []value) value {
 			if v, ok := fr.i.cfg.Params[goString(a[0])]; ok {
 				return v
@@ -576,8 +595,67 @@ func (i *interpreter) beginShared(roots []value) {
 	p.monitorOn = true
 }
 
+// protectCached marks the object graph of a cached setup value: a write to it
+// during the path is reported as an engine fault.
+func (i *interpreter) protectCached(root value) {
+	p := i.p
+	if p.cached == nil {
+		p.cached = map[*value]bool{}
+		p.cachedMaps = map[*omap]bool{}
+	}
+	var walk func(v value)
+	walk = func(v value) {
+		switch v := v.(type) {
+		case *value:
+			if v == nil || p.cached[v] {
+				return
+			}
+			p.cached[v] = true
+			walk(*v)
+		case structure:
+			for k := range v {
+				p.cached[&v[k]] = true
+				walk(v[k])
+			}
+		case array:
+			for k := range v {
+				p.cached[&v[k]] = true
+				walk(v[k])
+			}
+		case []value:
+			full := v[:cap(v)]
+			for k := range full {
+				if p.cached[&full[k]] {
+					return
+				}
+				p.cached[&full[k]] = true
+				walk(full[k])
+			}
+		case iface:
+			walk(v.v)
+		case *omap:
+			if v == nil || p.cachedMaps[v] {
+				return
+			}
+			p.cachedMaps[v] = true
+			for _, e := range v.entries {
+				walk(e.key)
+				walk(e.val)
+			}
+		case *closure:
+			for _, e := range v.Env {
+				walk(e)
+			}
+		}
+	}
+	walk(root)
+}
+
 func (i *interpreter) noteWrite(fr *frame, addr *value) {
 	p := i.p
+	if p.cached != nil && p.cached[addr] {
+		panic(abortPath{"unsupported", "write to cached setup state in " + fr.fn.String() + loc(fr.fn.Prog.Fset, curPos(fr))})
+	}
 	if !p.monitorOn || !p.shared[addr] {
 		return
 	}
@@ -591,6 +669,9 @@ func (i *interpreter) noteWrite(fr *frame, addr *value) {
 
 func (i *interpreter) noteMapWrite(fr *frame, mp *omap) {
 	p := i.p
+	if p.cachedMaps != nil && p.cachedMaps[mp] {
+		panic(abortPath{"unsupported", "write to cached setup map in " + fr.fn.String() + loc(fr.fn.Prog.Fset, curPos(fr))})
+	}
 	if !p.monitorOn || !p.sharedMaps[mp] {
 		return
 	}
